@@ -34,6 +34,13 @@ GLOBAL_ASSUMPTIONS = [
  "D5: LLVM undef/poison = nondeterministic value; nsw arithmetic, shifts, division and memory accesses carry CBMC's generated UB obligations; nuw is not checked",
 ]
 
+import threading
+CBMC_SLOTS = threading.BoundedSemaphore(int(os.environ.get("VERIF_CBMC_SLOTS", NCPU)))
+def set_cbmc_slots(n):
+    """at most n solver processes at a time (memory-heavy checks)"""
+    global CBMC_SLOTS
+    CBMC_SLOTS = threading.BoundedSemaphore(n)
+
 class ToolError(Exception):
     """undecided: extraction / tool problem (exit 2)"""
 
@@ -247,7 +254,7 @@ class Task:
                 def run_group(g):
                     c2 = list(cb)
                     for p in g: c2 += ["--property", p]
-                    return sh(c2, cwd=d, timeout=s.timeout, mem_gb=s.mem_gb)
+                    with CBMC_SLOTS: return sh(c2, cwd=d, timeout=s.timeout, mem_gb=s.mem_gb)
                 with cf.ThreadPoolExecutor(max_workers=min(len(groups), 8)) as ex2: outs = list(ex2.map(run_group, groups))
                 res["time"]["cbmc"] = round(time.time() - t0, 2); res["time"]["cbmc_cpu_sum"] = round(sum(x[3] for x in outs), 2)
                 props = []; msgs = []; js = None
@@ -264,7 +271,7 @@ class Task:
                     want = set(groups[gi]); props += [p for p in pp if p["property"] in want]
                 rc = 0; o = ""; e = ""
             else:
-                rc, o, e, t = sh(cb, cwd=d, timeout=s.timeout, mem_gb=s.mem_gb)
+                with CBMC_SLOTS: rc, o, e, t = sh(cb, cwd=d, timeout=s.timeout, mem_gb=s.mem_gb)
                 res["time"]["cbmc"] = round(t, 2)
                 open(os.path.join(d, "cbmc.json"), "w").write(o); open(os.path.join(d, "cbmc.err"), "w").write(e)
                 if e == "TIMEOUT": res["why"] = "cbmc timeout after %ds" % s.timeout; return res
@@ -455,8 +462,9 @@ def load_known(prop):
     if not os.path.exists(p): return []
     return [k for k in json.load(open(p)).get("findings", []) if k.get("property") == prop]
 
-def run_check(prop, tier, tasks, units, level, extra_assumptions=(), trusted_base=(), explanation="", design_ref=""):
+def run_check(prop, tier, tasks, units, level, extra_assumptions=(), trusted_base=(), explanation="", design_ref="", max_workers=None):
     t0 = time.time()
+    if max_workers: set_cbmc_slots(max_workers)
     seed = int(os.environ.get("VERIF_SEED", "0") or 0)
     os.makedirs(os.path.join(BUILD, prop), exist_ok=True)
     ev_path = os.path.join(VERIF, "evidence", prop + ".json")
@@ -474,7 +482,7 @@ def run_check(prop, tier, tasks, units, level, extra_assumptions=(), trusted_bas
     for t in tasks:
         if t.unit.name not in okunits:
             results.append({"id": t.id, "group": t.group, "unit": t.unit.name, "status": "undecided", "why": "unit did not build", "obligations": 0, "discharged": 0, "failed": [], "bounded": t.bounded, "time": {}})
-    with cf.ThreadPoolExecutor(max_workers=NCPU) as ex:
+    with cf.ThreadPoolExecutor(max_workers=min(NCPU, max_workers or NCPU)) as ex:
         futs = {ex.submit(t.run, prop): t for t in run_tasks}
         for f in cf.as_completed(futs):
             r = f.result(); results.append(r)
